@@ -19,6 +19,7 @@ import (
 	"github.com/sassoftware/relic/v8/lib/binpatch"
 
 	"verifharness/hx"
+	"verifharness/sg"
 )
 
 // Params of a synthetic, well-formed PE image.
@@ -239,8 +240,84 @@ func Mutate(r *hx.Rng, f []byte) []byte {
 	return g
 }
 
+// SignReal signs an image with a real key through relic's pe-coff signer and returns the signed bytes.
+func SignReal(f []byte, key string, pageHashes bool) ([]byte, error) {
+	dir, err := os.MkdirTemp("", "vh-pe-")
+	if err != nil {
+		return nil, err
+	}
+	defer os.RemoveAll(dir)
+	p := dir + "/a.exe"
+	if err := os.WriteFile(p, f, 0o644); err != nil {
+		return nil, err
+	}
+	flags := map[string]string{}
+	if pageHashes {
+		flags["page-hashes"] = "true"
+	}
+	if err := sg.Sign("pe-coff", p, p, sg.Cert(key), crypto.SHA256, flags); err != nil {
+		return nil, err
+	}
+	return os.ReadFile(p)
+}
+
+// genMutations: model-directed mutation campaign on really signed images (C02)
+func genMutations(w *bufio.Writer, r *hx.Rng, tier string) {
+	files, per := 6, 160
+	if tier == "thorough" {
+		files, per = 40, 700
+	}
+	for i := 0; i < files; i++ {
+		p := RandParams(r)
+		p.NumDirs = 16
+		p.Gap = 0
+		if len(p.Sections) > 3 {
+			p.Sections = p.Sections[:3]
+		}
+		f := Build(r, p)
+		signed, err := SignReal(f, []string{"p256", "rsa"}[i%2], i%3 == 0)
+		if err != nil {
+			continue
+		}
+		d, err := authenticode.DigestPE(bytes.NewReader(signed), crypto.SHA256, false)
+		if err != nil {
+			continue
+		}
+		peStart := int(binary.LittleEndian.Uint32(signed[0x3c:]))
+		ck := peStart + 88
+		// boundaries of every carve-out, then random positions
+		pos := []int{0, 1, 0x3c, peStart, peStart + 6, peStart + 20, peStart + 24, ck - 1, ck, ck + 1, ck + 3, ck + 4, ck + 5}
+		for dd := ck + 30; dd < ck+90; dd++ { // the data-directory neighbourhood (PE32: +40, PE32+: +56)
+			pos = append(pos, dd)
+		}
+		cs := int(d.CertStart)
+		pos = append(pos, cs-9, cs-8, cs-1, cs, cs+1, cs+4, cs+7, cs+8, cs+9, len(signed)-1)
+		for len(pos) < per {
+			pos = append(pos, r.Intn(len(signed)))
+		}
+		var sb strings.Builder
+		n := 0
+		for _, q := range pos {
+			if q < 0 || q >= len(signed) {
+				continue
+			}
+			nb := signed[q] ^ byte(1<<uint(r.Intn(8)))
+			if r.Intn(4) == 0 {
+				nb = byte(r.U64())
+			}
+			fmt.Fprintf(&sb, " %d:%d", q, nb)
+			n++
+		}
+		fmt.Fprintf(w, "PE mutate %s %d%s\n", hx.Hex(signed), n, sb.String())
+	}
+}
+
 func Gen(w *bufio.Writer, seed uint64, tier string, prop string) {
 	r := hx.NewRng(seed ^ 0x5045)
+	if prop == "C02" {
+		genMutations(w, r, tier)
+		return
+	}
 	n := 250
 	if tier == "thorough" {
 		n = 4000
@@ -362,6 +439,32 @@ func Handle(f []string) (res string) {
 			again = "digest-changed"
 		}
 		return fmt.Sprintf("ok %s %s", hx.Hex(out), again)
+	case "mutate":
+		img := hx.MustUnHex(f[1])
+		var out []string
+		for _, m := range f[3:] {
+			parts := strings.SplitN(m, ":", 2)
+			pos, nb := int(hx.Atoi(parts[0])), byte(hx.Atoi(parts[1]))
+			if img[pos] == nb {
+				out = append(out, "same")
+				continue
+			}
+			g := append([]byte{}, img...)
+			g[pos] = nb
+			res := func() (r string) {
+				defer func() {
+					if v := recover(); v != nil {
+						r = "panic:" + panicSite(v)
+					}
+				}()
+				if _, err := authenticode.VerifyPE(bytes.NewReader(g), false); err != nil {
+					return "fail"
+				}
+				return "pass"
+			}()
+			out = append(out, res)
+		}
+		return "ok " + strings.Join(out, " ")
 	case "locate":
 		img := hx.MustUnHex(f[1])
 		sigs, err := authenticode.VerifyPE(bytes.NewReader(img), true)
